@@ -10,6 +10,7 @@ import traceback
 
 sys.path.insert(0, os.path.dirname(os.path.abspath(__file__)))
 import common  # noqa: E402
+import purity  # noqa: E402
 
 
 def main():
@@ -25,12 +26,30 @@ def main():
     if a.replay:
         sys.exit(mod.replay(json.load(open(a.replay))))
     chk = common.Check(a.pid, tier, seed)
+    guard = purity.ModuleStateGuard(a.pid)
+    try:
+        guard.start()
+    except Exception:
+        guard = None
     try:
         mod.run(chk)
     except Exception:
         # machinery failure: never silently pass
         traceback.print_exc()
         path = chk.replay({"kind": "machinery-error", "traceback": traceback.format_exc()}, no_input=True)
+    if guard is not None:
+        # the models are pure functions: state kept by the anchored modules between calls is not modelled
+        try:
+            ch = guard.changes()
+        except Exception:
+            ch = [{"object": "guard", "before": None, "after": traceback.format_exc()[-300:]}]
+        chk.cov["module_state_guard"] = {"modules": guard.modules, "changes": ch,
+                                         "enforced": os.environ.get("VERIF_PURITY_ENFORCE", "0") == "1"}
+        if ch and chk.cov["module_state_guard"]["enforced"] and not chk.violations:
+            chk.replay({"kind": "state-dependence",
+                        "note": "module-level state of the anchored PyDRex modules changed during the run: results may depend on the call "
+                                "history, which the (pure) models do not express; correspondence no longer shown; no failing history found",
+                        "changes": ch}, no_input=True)
     sys.exit(chk.finish())
 
 
